@@ -98,9 +98,11 @@ func c18Mercator(c *core.Case) {
 	if r.P(0.0004) || (c.Tier == "thorough" && r.P(0.0004)) {
 		n = veryLongLen(r)
 		c.Tag("very-long-list")
+		c.Procs()
 	} else if r.P(0.003) {
 		n = longLen(r)
 		c.Tag("long-list")
+		c.Procs()
 	}
 	extreme := r.P(0.15) // altitudes up to +-2^25 m; otherwise within +-10 km (aircraft, terrain, sea floor)
 	pts, objs, ok := c18Points(c, n, func() pt {
